@@ -93,6 +93,15 @@ def check_compact(prop, tier, seed):
             log("seqrun %s: %d histories x 4 engines (%d faulty/interrupted compactions with work), predicted responses matched in %d" % (
                 title, rep.get("behaviours", 0), nf, rep.get("agreed", 0)))
             alltraces += traces
+        # the same single-key histories (no faults) on a TiKV cluster that is split into regions in the middle of the key's versions before
+        # every compaction: compaction workers whose partitions start and end inside one key
+        behs = seq_gen(work, dict(SEQ_CONSTS, Keys={1}, MaxOps=7, ExpKinds={"cur"}, CompactKinds={"cur", "cur-1", "cur-2"}, CompactAfter=4), seed + 5, 64 if quick else 400, name="gencompreg")
+        rep, traces, _ = seqrun(work, binp, behs, "tikv-regions", 8, flags, name="seqrun_regions")
+        cov["evaluations"] += rep.get("behaviours", 0)
+        cov["replay"].append(dict(histories="1 key, multi-version histories, region borders inside the key's versions before each compaction", behaviours=rep.get("behaviours", 0),
+                                  engines="tikv-regions", agreed_with_spec=rep.get("agreed", 0), observable_mismatch=rep.get("obs_mismatch", 0)))
+        log("seqrun regions: %d histories on tikv-regions, predicted responses matched in %d" % (rep.get("behaviours", 0), rep.get("agreed", 0)))
+        alltraces += traces
         # the compactor as a gated process: every interleaving of its deletions with the steps of writers
         ccm = [("concurrent model: 1 writer, stepwise compactor, every initial key state", dict(CC_CONSTS)),
                ("concurrent model: 2 writers on a deleted / re-created key, stepwise compactor",
